@@ -174,6 +174,7 @@ def build_harness(name, variant="asan", key=None):
                   if f != "-fno-sanitize-recover=undefined"]
     if variant == "fuzz":
         link_flags = [f.replace("fuzzer-no-link", "fuzzer") for f in flags]
+        libs = ["-lrapidcheck"] + libs
     else:
         link_flags = flags
         libs = ["-lrapidcheck"] + libs
